@@ -53,6 +53,14 @@ func must(err error) {
 	}
 }
 
+// Pending announces the op about to be executed: everything recorded so far is flushed and the op is written
+// to pending.txt, so that if the implementation panics (the process dies) the failing input is on disk.
+func (r *Run) Pending(op string) {
+	r.ops.Flush()
+	r.out.Flush()
+	os.WriteFile(filepath.Join(r.Dir, "pending.txt"), []byte(op+"\n"), 0o644)
+}
+
 // Emit records one op line and the implementation's output line.
 func (r *Run) Emit(op, res string) {
 	r.ops.WriteString(op)
